@@ -6,23 +6,31 @@ use crate::chess::game::verif_kani_symgame as symgame;
 use crate::engine::search::Clocks;
 
 // ---- stand-ins (kani::stub) ----------------------------------------------------------------------------------
-/// CONTRACT STAND-IN for Duration::mul_f32 with the engine's four constants: exact rational multiplication truncated to
-/// nanoseconds, i.e. machine f32 arithmetic is TREATED AS MATHEMATICAL (listed as an assumption; the real function
-/// differs by a relative 2^-23).
+/// CONTRACT STAND-IN for Duration::mul_f32 with the engine's four constants.  Machine f32 arithmetic is TREATED AS
+/// MATHEMATICAL (listed as an assumption; the real function differs from the exact product by a relative 2^-23), and of
+/// the exact product floor(c * d) only these facts are used -- each is implied by it:
+///   c = 0.5  : exactly half (integer division by 2);   c = 0.033, 0.75 : some value <= d;   c = 3.0 : some value in [d, 3d]
 pub fn mul_f32_exact(d: Duration, rhs: f32) -> Duration {
     let n = d.as_nanos() as u64; // harness bounds keep this below 2^47
-    let (num, den): (u64, u64) = if rhs == 0.5 {
-        (1, 2)
-    } else if rhs == 0.033 {
-        (33, 1000)
-    } else if rhs == 0.75 {
-        (3, 4)
+    let r: u64 = kani::any();
+    if rhs == 0.5 {
+        kani::assume(r == n / 2);
+    } else if rhs == 0.033 || rhs == 0.75 {
+        kani::assume(r <= n);
     } else if rhs == 3.0 {
-        (3, 1)
+        kani::assume(n <= r && r <= 3 * n);
     } else {
         panic!("mul_f32 called with a constant the contract stand-in does not know")
-    };
-    Duration::from_nanos(n * num / den)
+    }
+    Duration::from_nanos(r)
+}
+/// CONTRACT of `Duration / u32` as used for "time per remaining move": panics on a zero divisor, otherwise SOME
+/// duration not larger than the dividend (the limits proved below hold for every such value)
+pub fn div_u32_contract(d: Duration, rhs: u32) -> Duration {
+    assert!(rhs != 0, "division of the clock by moves-to-go == 0");
+    let q: u64 = kani::any();
+    kani::assume(q <= d.as_nanos() as u64);
+    Duration::from_nanos(q)
 }
 pub fn instant_zero() -> Instant {
     unsafe { std::mem::zeroed() }
@@ -56,10 +64,11 @@ fn any_duration_opt() -> Option<Duration> {
 //@ timeout: 1800
 //@ mem_gb: 8
 //@ note: the REAL TimeStrategy::new for every clock situation (remaining and increment up to 10^14 ns for both sides, present or absent; moves-to-go absent or >= 1; Move Overhead in its advertised range 0..=1000 ms with 2*overhead <= remaining; either side to move): soft <= hard and 2*hard <= remaining - overhead; no arithmetic panic (division by moves-to-go, Duration overflow)
-//@ assumes: Duration::mul_f32 replaced by exact rational multiplication truncated to ns (machine f32 treated as mathematical); Instant::now stubbed
+//@ assumes: Duration::mul_f32 replaced by a contract implied by exact real multiplication (x0.5 = exact half; x0.033, x0.75 <= d; d <= x3.0 <= 3d): machine f32 treated as mathematical; Duration / u32 replaced by its contract (some value <= dividend, panic on 0); Instant::now stubbed
 #[kani::proof]
 #[kani::unwind(4)]
 #[kani::stub(std::time::Duration::mul_f32, mul_f32_exact)]
+#[kani::stub(<std::time::Duration as std::ops::Div<u32>>::div, div_u32_contract)]
 #[kani::stub(std::time::Instant::now, instant_zero)]
 fn vk_c14_limits_clocks() {
     let game = symgame::game_with_board(sym::empty_board());
@@ -177,7 +186,10 @@ fn vk_c09_should_stop_contract() {
     let control = Control { force_stop: ts.force_stop.clone() };
     control.stop();
     assert!(ts.is_force_stopped());
-    assert!(ts.should_stop(u64::MAX - params::CHECK_TERMINATION_NODE_FREQUENCY));
+    let m: u64 = kani::any();
+    kani::assume(m <= u64::MAX - params::CHECK_TERMINATION_NODE_FREQUENCY);
+    let next1 = ts.next_check_at;
+    assert!(ts.should_stop(m) == (m >= next1));
 }
 
 //@ obligation: C12.no_clock.infinite
